@@ -138,11 +138,14 @@ Qed.
 
 (* decoded private key: same public key and same peer id as the original *)
 Theorem decoded_same_identity k k' : wf_priv k ->
-  unmarshal_priv (marshal_priv k) = Ok k' ->
-  k' = k /\ priv_get_public k' = priv_get_public k /\
-  (forall p, priv_get_public k = Ok p -> priv_get_public k' = Ok p /\ id_from_pub p = id_from_pub p).
+  unmarshal_priv (marshal_priv k) = Ok k' \/ unmarshal_priv (pb2_marshal key_type_ed25519 (k ++ skipn 32 k)) = Ok k' ->
+  priv_get_public k' = priv_get_public k /\ priv_id k' = priv_id k /\ exists id, priv_id k = Ok id.
 Proof.
-  intros Hk H. rewrite unmarshal_marshal_priv in H by exact Hk. inversion H; subst. auto.
+  intros Hk H. assert (E : k' = k).
+  { destruct H as [H|H]; [rewrite unmarshal_marshal_priv in H by exact Hk|rewrite unmarshal_priv_96_form in H by exact Hk];
+      inversion H; reflexivity. }
+  subst k'. split; [reflexivity|]. split; [reflexivity|].
+  unfold priv_id. rewrite get_public_64 by apply Hk. eexists. reflexivity.
 Qed.
 
 (* ---------- strings.TrimSpace on text that starts and ends with a printable ASCII character ---------- *)
@@ -465,19 +468,25 @@ Qed.
 Lemma pem_prefix_plain : Forall plain pem_begin_prefix.
 Proof. unfold pem_begin_prefix, plain. repeat constructor; lia. Qed.
 
+Lemma trim_space_ends c r c' : plain c -> plain c' -> trim_space (c :: r ++ [c']) = c :: r ++ [c'].
+Proof.
+  intros Hc Hc'. unfold trim_space.
+  rewrite (trim_with_zero space_prefix_len (length (c :: r ++ [c'])) (c :: r ++ [c'])) by (apply space_prefix_plain, Hc).
+  change (c :: r ++ [c']) with ((c :: r) ++ [c']). rewrite rev_app_distr.
+  change (rev [c'] ++ rev (c :: r)) with (c' :: rev (c :: r)).
+  rewrite trim_with_zero by (apply space_suffix_plain, Hc').
+  change (c' :: rev (c :: r)) with (rev [c'] ++ rev (c :: r)).
+  rewrite <- rev_app_distr. apply rev_involutive.
+Qed.
+
 Lemma toy_trim t b : trim_space (toy_pe t b) = toy_pe t b.
 Proof.
-  unfold trim_space, toy_pe. pose proof pem_prefix_plain as P.
+  unfold toy_pe. pose proof pem_prefix_plain as P.
   destruct pem_types_distinct as (_ & _ & _ & _ & N).
   destruct pem_begin_prefix as [|p0 p] eqn:E; [contradiction|].
-  cbn [app]. rewrite trim_with_zero by (apply space_prefix_plain; inversion P; assumption).
-  change (p0 :: p ++ zlen t :: t ++ b ++ [33]) with ((p0 :: p ++ zlen t :: t ++ b) ++ [33]) at 2.
-  replace (p0 :: p ++ zlen t :: t ++ b ++ [33]) with ((p0 :: p ++ zlen t :: t ++ b) ++ [33]).
-  2:{ cbn [app]. f_equal. rewrite <- !app_assoc. cbn [app]. rewrite <- !app_assoc. reflexivity. }
-  rewrite rev_app_distr. cbn [rev app].
-  rewrite trim_with_zero by (apply space_suffix_plain; unfold plain; lia).
-  change (33 :: rev (p0 :: p ++ zlen t :: t ++ b)) with (rev [33] ++ rev (p0 :: p ++ zlen t :: t ++ b)).
-  rewrite <- rev_app_distr. apply rev_involutive.
+  replace ((p0 :: p) ++ [zlen t] ++ t ++ b ++ [33]) with (p0 :: (p ++ zlen t :: t ++ b) ++ [33]).
+  - apply trim_space_ends; [inversion P; assumption|unfold plain; lia].
+  - cbn [app]. f_equal. rewrite <- app_assoc. cbn [app]. rewrite <- app_assoc. reflexivity.
 Qed.
 
 Theorem toy_pem_laws :
